@@ -202,12 +202,14 @@ fn primaries_ref(i: CP, o: CP) -> M64 {
 }
 fn primaries_check(i: CP, o: CP) {
     let t = primaries_ref(i, o);
+    // magnitude fact used by the Verus budget lemma (U-round, lemma_primaries_budget): every row of the reference matrix has abs sum <= 5.5
+    { let mut r = 0; while r < 3 { assert!(t[r][0].abs() + t[r][1].abs() + t[r][2].abs() <= 5.5); r += 1; } }
     let img = transform_primaries(vec![[1.0, 0.0, 0.0], [0.0, 1.0, 0.0], [0.0, 0.0, 1.0], [1.0, 1.0, 1.0]], i, o).unwrap();
     let mut k = 0;
     while k < 3 {
         let mut c = 0;
         // image of basis vector e_k is column k of the reference matrix (all pixels follow by linearity of mul_arr)
-        while c < 3 { assert!((img[k][c] as f64 - t[c][k]).abs() <= 1e-5); c += 1; }
+        while c < 3 { assert!((img[k][c] as f64 - t[c][k]).abs() <= 2e-6); c += 1; }
         k += 1;
     }
     // equal-energy white stays white
